@@ -4,6 +4,7 @@ package main
 // baseline and the known findings, write evidence and replay files, print VIOLATION lines.
 
 import (
+	"sync"
 	"encoding/json"
 	"fmt"
 	"os"
@@ -78,7 +79,49 @@ func cmdCheck(args []string) int {
 			Detail: "unit could not be loaded from the current tree: " + err.Error(), Result: SolverResult{Verdict: VUnknown, Output: err.Error()}})
 	}
 	r.solveAll()
+	r.quietRetry()
 	return r.report(pd, update)
+}
+
+// quietRetry: when only a few obligations are undecided after the parallel passes, they are solved once more, three at a
+// time with a long budget, after everything else has finished. The parallel passes run up to 16 solver tasks (more during
+// the short portfolio pass) and their time limits are wall-clock: an obligation that needs a few seconds on a quiet machine
+// can time out there. A change that really breaks a property usually leaves many obligations undecided (no retry then),
+// and a retry can only turn "undecided" into "proved" by an actual proof.
+func (r *Run) quietRetry() {
+	var todo []*Obligation
+	for _, ob := range r.Obls {
+		if ob.Canary || ob.Result.Verdict == VUnsat || ob.Result.Verdict == VSat || ob.Query == "" || ob.Kind == "unit" {
+			continue
+		}
+		todo = append(todo, ob)
+	}
+	if len(todo) == 0 || len(todo) > 10 {
+		return
+	}
+	budget := 120
+	if r.Tier == "thorough" {
+		budget = 300
+	}
+	var wg sync.WaitGroup
+	sem := make(chan struct{}, 3)
+	for _, ob := range todo {
+		wg.Add(1)
+		sem <- struct{}{}
+		go func(ob *Obligation) {
+			defer wg.Done()
+			defer func() { <-sem }()
+			prev := ob.Result.Seconds
+			res := solve(ob.Query, budget, false, []string{"z3-new", "cvc5", "z3"})
+			res.Seconds += prev
+			if res.Verdict == VUnsat {
+				res.Backend += "(retry)"
+			}
+			ob.Result = res
+		}(ob)
+	}
+	wg.Wait()
+	r.Notes = append(r.Notes, fmt.Sprintf("%d obligations were undecided after the parallel passes and were solved again on the quiet machine (budget %d s each)", len(todo), budget))
 }
 
 func loadBaseline(prop, tier string) *Baseline {
@@ -124,6 +167,28 @@ func matchAny(pats []string, name string) bool {
 
 var contractKinds = map[string]bool{"ensures": true, "requires": true, "inv.init": true, "inv.step": true, "assigns": true, "lemma": true, "frame": true}
 
+// clauseKey names the contract clause an obligation was generated from ("" for obligations that follow the shape of the
+// code rather than a clause: safety, overflow, call-site preconditions, canaries). The baseline records which clauses
+// produced at least one obligation on the unchanged tree; how many (one per return path, per call site) is a property of
+// the code's shape and may change with a harmless edit, so it is not compared.
+func clauseKey(ob *Obligation) string {
+	if !contractKinds[ob.Kind] || ob.Kind == "requires" {
+		return ""
+	}
+	name := ob.Name
+	if i := strings.Index(name, "#"); i >= 0 {
+		clause := name[i+1:]
+		if ob.Kind == "ensures" || ob.Kind == "assigns" {
+			// "ensures[2].1" -> "ensures[2]" (the suffix numbers the return path)
+			if j := strings.LastIndex(clause, "]."); j >= 0 {
+				clause = clause[:j+1]
+			}
+		}
+		return ob.Unit + "/" + ob.Fn + "#" + clause
+	}
+	return ob.Unit + "/" + ob.Fn + "#" + ob.Kind
+}
+
 func (r *Run) report(pd *propertyDef, update bool) int {
 	base := loadBaseline(r.Property, r.Tier)
 	findings := loadFindings()
@@ -151,8 +216,8 @@ func (r *Run) report(pd *propertyDef, update bool) int {
 			continue
 		}
 		total++
-		if contractKinds[ob.Kind] {
-			counts[ob.Unit+"/"+ob.Fn+"#"+ob.Kind]++
+		if k := clauseKey(ob); k != "" {
+			counts[k] = 1
 		}
 		if ob.Result.Verdict == VUnsat {
 			discharged++
@@ -186,7 +251,7 @@ func (r *Run) report(pd *propertyDef, update bool) int {
 	for k, n := range base.Counts {
 		if counts[k] < n {
 			failing = append(failing, &Obligation{Name: k + ".count", Kind: "count",
-				Detail:  fmt.Sprintf("%d obligations of this kind were generated on the unchanged tree, now %d: a contract-derived obligation was dropped", n, counts[k]),
+				Detail:  "this contract clause produced obligations on the unchanged tree and produces none now: a contract-derived obligation was dropped",
 				Result: SolverResult{Verdict: VUnknown}})
 		}
 	}
